@@ -279,8 +279,9 @@ func legacyTLS(version uint16) *Profile {
 	pr := *TLS12RSA
 	pr.Name = map[uint16]string{0x0301: "TLS1.0-RSA", 0x0302: "TLS1.1-RSA"}[version]
 	pr.Version = version
-	pr.Suites = []uint16{SuiteAESCBC}
-	pr.GCM = func(uint16) bool { return false }
+	// the GCM suite does not exist below TLS 1.2; it is listed so that a scripted server can SELECT it
+	// anyway (an endpoint must refuse that), never offered by default
+	pr.Suites = []uint16{SuiteAESCBC, SuiteAESGCM}
 	pr.PRF = prf10
 	pr.Hash = md5sha1
 	pr.ImplicitIV = version == 0x0301
